@@ -17,6 +17,7 @@
 from __future__ import annotations
 
 import itertools
+import re
 import os
 from pathlib import Path
 import time
@@ -191,6 +192,12 @@ def frag(kind):
         F["src/defaults.yml"] = f"# plain comment\n#! {T(2)}\nkey: value\n"
         F["src/limits.h"] = f"//! {T(3)}\n#define LIMIT 3\n"
         F["src/sub/defaults.yml"] = f"#! {T(4)}\nother: 1\n"
+    elif kind == "source-shown":
+        # `source: true` (see OPTIONS): two procedures of one name in one file, each shown with its own source text
+        F["src/w.f90"] = (f"module mw1\n!! {T(1)}\ncontains\nsubroutine dupsrc()\n!! {T(2)}\nprint *, 'CODEOFMW1'\nend subroutine dupsrc\nend module mw1\n"
+                          f"module mw2\n!! {T(3)}\ncontains\nsubroutine dupsrc()\n!! {T(4)}\nprint *, 'CODEOFMW2'\nend subroutine dupsrc\n"
+                          f"function dupsrc2() result(r)\n!! {T(5)}\ninteger :: r\nr = len('CODEOFMW2F')\nend function dupsrc2\nend module mw2\n"
+                          f"module mw3\n!! {T(6)}\ncontains\nfunction dupsrc2() result(r)\n!! {T(7)}\ninteger :: r\nr = len('CODEOFMW3F')\nend function dupsrc2\nend module mw3\n")
     elif kind == "saved-graphs":
         # graphs written to graph_dir (see OPTIONS): entities whose identifiers differ only in characters that are not letters or digits
         F["src/v.f90"] = (f"module sa\n!! {T(1)}\ncontains\nsubroutine step()\n!! {T(2)}\ncall helper()\nend subroutine step\nsubroutine helper()\n!! {T(3)}\nend subroutine helper\nend module sa\n"
@@ -216,12 +223,12 @@ def two_paragraphs(files):
     return out
 
 
-OPTIONS = {"saved-graphs": dict(graph=True, graph_dir="graphs", parallel=0), "extra-files": dict(extra_filetypes=[dict(extension="yml", comment="#"), dict(extension="h", comment="//")])}
+OPTIONS = {"source-shown": dict(source=True), "saved-graphs": dict(graph=True, graph_dir="graphs", parallel=0), "extra-files": dict(extra_filetypes=[dict(extension="yml", comment="#"), dict(extension="h", comment="//")])}
 
 
 KINDS = ["modproc-a", "modproc-b", "modproc-case", "external", "type-ctor", "type-case", "module-named-dup", "submodule-named-dup",
          "module-case", "program-named-dup", "unnamed-program", "unnamed-blockdata", "operators", "bound-operators", "namelists",
-         "same-basename", "same-basename-case", "variables", "tilde-name", "interface-proc", "generic-bodies", "extra-files", "inherited-generic", "saved-graphs"]
+         "same-basename", "same-basename-case", "variables", "tilde-name", "interface-proc", "generic-bodies", "extra-files", "inherited-generic", "saved-graphs", "source-shown"]
 EXCLUSIVE = [{"program-named-dup", "unnamed-program"}, {"module-named-dup", "module-case"}]
 
 
@@ -386,6 +393,18 @@ def run_project(st: Stats, combo, order):
                     st.violation("copied-source-is-another-file", stratum, dict(feats, n_same_basename=len(fl)), inp,
                                  dict(file=str(f.path)[str(f.path).index("src/"):], served="src/" + name), "src/<name> is byte-identical to the defining file")
         st.states.add(core.digest(sorted(site.files)))
+        # 4b. source text shown on a procedure's page (`source: true`) is that procedure's
+        if "source-shown" in combo:
+            for pr in r.project.procedures:
+                if pr.name.lower() in ("dupsrc", "dupsrc2") and pr.parent is not None and pr.parent.name.lower().startswith("mw"):
+                    mark = "CODEOF" + pr.parent.name.upper() + ("F" if pr.name.lower() == "dupsrc2" else "")
+                    pg = site.pages.get((pr.get_url() or "").split("#")[0])
+                    others = [m_ for m_ in ("CODEOFMW1", "CODEOFMW2", "CODEOFMW2F", "CODEOFMW3F") if m_ != mark and pg is not None and re.search(rf"{m_}\b", pg.text)]
+                    if pg is None or not re.search(rf"{mark}\b", pg.text) or others:
+                        bad += 1
+                        st.violation("page-at-url-documents-another-entity", stratum, dict(feats, coll="source-text", name_lower=False), inp,
+                                     dict(entity=f"{pr.parent.name}:{pr.name}", url=pr.get_url(), own_source_shown=bool(pg and re.search(rf"{mark}\b", pg.text)), foreign_source=others),
+                                     "the source text of this procedure")
         # 5. graphs saved to graph_dir: one pair of files per saved graph, each holding that graph
         if getattr(r.settings, "graph_dir", None) and r.docs.graphs is not None and getattr(r.docs.graphs, "save_graphs", False):
             gdir = Path(r.settings.graph_dir)
